@@ -133,7 +133,8 @@ def run(ctx):
         ctx.violation(f"obligation:{b}", f"Lean obligation broken: {b}", {"obligation": b}, no_input=True)
     ctx.evaluations = c.get("pairs-executed", 0)
     ctx.distinct = set(range(c.get("pairs-nontrivial", 0)))
-    ctx.extra["programs"] = sorted(c10_pool.POOL)
+    ctx.extra["program_names"] = sorted(c10_pool.POOL)
+    ctx.extra["programs"] = len(c10_pool.POOL)
 
 
 def run_workers(ctx, jobs, deadline_s):
